@@ -21,3 +21,9 @@ string short_name(object ob) {
   if (n) return n;
   return file_name(ob);
 }
+
+// injected fault: log which task raises, then raise
+void vfail(string task, string who) {
+  vlog("\"e\":\"Raise\",\"ctx\":" + jq(task) + ",\"ob\":" + jq(who));
+  error("injected fault in " + task + "\n");
+}
